@@ -75,11 +75,11 @@ RES_IS_NEW = ('result_is_the_new_variable', 'self->assigns.n == __CPROVER_old(se
 EXPRS_GROWTH = ('exprs_growth_bounded', 'self->exprs.n <= __CPROVER_old(self->exprs.n) + 2')
 
 
-def pre(maxnew_clauses, maxnew_vars, extra, exprs_room=2):
-    """root-level network state every construct may be called in (symbolic), plus room in the ghost log / models"""
+def pre(maxnew_clauses, maxnew_vars, extra, exprs_room=2, cache='sp_exprs_fresh_for_lits(self->exprs, XT_EXPRS_CAP - %d, ls)'):
+    """root-level network state every construct may be called in (symbolic), plus room in the ghost log / models.  The cache may
+    hold anything that does not mention a variable of the arguments (so this request cannot hit it)."""
     return [FRESH, '__exc == 0 && xt_ncl + %d <= XT_MAXCL' % maxnew_clauses,
-            'sp_assigns_wf(self->assigns, XT_NV0 + %d) && self->assigns.n + %d <= XT_MAXV && self->trail_lim.n == 0 && sp_exprs_no_reified(self->exprs, XT_EXPRS_CAP - %d)' % (
-                8, maxnew_vars, exprs_room)] + extra
+            'sp_assigns_wf(self->assigns, XT_NV0 + %d) && self->assigns.n + %d <= XT_MAXV && self->trail_lim.n == 0' % (8, maxnew_vars)] + extra + [cache % exprs_room]
 
 
 def reified(formula, maxcl, nl, strict=True):
@@ -175,7 +175,8 @@ def jobs(tier):
     EQF = '(sg_lit(xt_sigma, *left) == sg_lit(xt_sigma, *right))'
     c_eq = Contract(requires=pre(4, 1, ['__CPROVER_is_fresh(left, sizeof(*left)) && __CPROVER_is_fresh(right, sizeof(*right))',
                                         'sp_var(*left) < self->assigns.n && sp_var(*right) < self->assigns.n',
-                                        'sp_rec_assigns(200, self->assigns) && xt_recu(0, left->x) && xt_recu(1, right->x) && xt_recu(2, xt_sigma)']),
+                                        'sp_rec_assigns(200, self->assigns) && xt_recu(0, left->x) && xt_recu(1, right->x) && xt_recu(2, xt_sigma)'],
+                                 cache='sp_exprs_fresh_for_2(self->exprs, XT_EXPRS_CAP - %d, *left, *right)'),
                     ensures=reified(EQF, 4, 2), assigns=FRAME)
     J('new_eq', EQ_T, c_eq, d=defines(nv0, maxv=6, maxcl=4, maxlits=4, exprs_cap=4, str_cap=6),
       replay='''  lit l = mk_lit_x(S[0]), r = mk_lit_x(S[1]);
@@ -255,7 +256,7 @@ def jobs(tier):
 '''}, bounded='<= 4 literals, <= 6 variables'))
 
     # new_var: the callers' contract, on the real body (fields the callers never read are part of this job's state only)
-    cnv = Contract(requires=[FRESH, '__exc == 0', 'sp_assigns_wf(self->assigns, XT_NV0 + 1) && sp_exprs_no_reified(self->exprs, XT_EXPRS_CAP - 1)',
+    cnv = Contract(requires=[FRESH, '__exc == 0', 'sp_assigns_wf(self->assigns, XT_NV0 + 1) && sp_exprs_shape(self->exprs, XT_EXPRS_CAP - 1)',
                              'self->watches.n == 2 * self->assigns.n && self->level.n == self->assigns.n && self->reason.n == self->assigns.n'],
                    ensures=[('noexcept', '__exc == 0')] + C_NEW_VAR.ensures +
                    [('watch_lists_for_both_literals', 'self->watches.n == 2 * self->assigns.n && self->watches.e[self->watches.n - 1].n == 0 && self->watches.e[self->watches.n - 2].n == 0'),
@@ -271,38 +272,61 @@ def jobs(tier):
     from contracts import c13_pairs
     out.extend(c13_pairs.jobs(sys.modules[__name__], tier))
 
-    # ---- new_at_most_one, product encoding (>= 4 literals), on a CONCRETE argument structure with a symbolic assignment:
-    # the harness owns the network (6 variables, all undecided, empty cache) and passes 5 distinct literals of fixed signs, so
-    # the grid (3 x 2, not square) is built concretely, the recursion on the row/column selectors and new_conj run inline, and
-    # only xt_sigma (and the logged clauses' content) is symbolic.  Obligation: the literal, when true, forces at-most-one.
-    NP = 5
-    dP = dict(defines(nv0, maxv=NP + 1 + 9, maxcl=24, maxlits=NP, exprs_cap=16, str_cap=12), XT_NP=NP)
-    HARN = '''void xt_harness(void)
-{
-  __exc = 0;
-  xt_init_globals();
-  { unsigned int sg; xt_sigma = sg; }
-  struct smt_sat_core s;
-  s.assigns.n = XT_NP + 1; s.assigns.e[0] = 0;
-  for (int i = 1; i <= XT_NP; i++) s.assigns.e[i] = 2;
-  s.trail_lim.n = 0; s.exprs.n = 0;
-  struct vec_lit ls; ls.n = XT_NP;
-  for (int i = 0; i < XT_NP; i++) ls.e[i].x = (U_t)(((i + 1) << 1) + ((i % 3) != 1 ? 1 : 0));   /* b1, !b2, b3, b4, !b5 */
-  xt_ncl = 0; __exc = 0;
-  struct vec_us A0 = s.assigns;
-  struct smt_lit ret = smt_sat_core_new_at_most_one__vec_lit(&s, ls);
-  __CPROVER_assert(__exc == 0, "noexcept");
-  __CPROVER_assert(s.assigns.n > XT_NP + 2, "product_encoding_used");
-  __CPROVER_assert(!(sg_ext(xt_sigma, s.assigns) && sg_sat_log(xt_sigma, 0, xt_ncl) && sg_lit(xt_sigma, ret)) || (sg_count(xt_sigma, ls) <= 1), "forces_constraint");
-  __CPROVER_assert(sp_assigns_grown(A0, s.assigns), "root_assignment_unchanged");
-  __CPROVER_assert(xt_canary, "xt canary");
-}
-'''
-    CAPSP = {'vec_lit': NP, 'vec_us': dP['XT_MAXV'], 'vec_U': 2, 'umap_str_lit': dP['XT_EXPRS_CAP']}
-    if tier == 'thorough':
-      out.append(Job('sat.new_at_most_one_product', AMO_T, tus=TUS, contract=None, enforce=False, defines=dP, unwind=NP + 2, model_unwind=26, spec_headers=SPEC,
-                   callee_contracts={NEW_VAR: C_NEW_VAR, NEW_CLAUSE: C_NEW_CLAUSE}, replace=[NEW_VAR, NEW_CLAUSE], exceptions=True, caps=CAPSP,
-                   abstract_fields=ABS, harness=HARN, timeout=3000, mem_gb=32, solver=SOLVER,
-                   extra_flags=['--depth', '100000'],
-                   bounded='5 distinct undecided literals of fixed signs (3 x 2 product grid), symbolic assignment; only "true forces the constraint" is proved for this encoding'))
+    # ---- new_at_most_one, product encoding (>= 4 literals), on CONCRETE argument structures with a symbolic assignment: the whole
+    # real code runs inline (constructor, new_var, the recursion on the row/column selectors, new_conj, new_clause down to
+    # clause::new_clause), so the network is concrete and only xt_sigma is symbolic.  The harness reads the real clause
+    # database.  Obligations: the literal, when true, forces at-most-one in every model of the stored clauses; and for each of
+    # the n + 1 argument patterns with at most one true argument a reachability witness shows that some model has the
+    # literal true (nothing that satisfies the constraint is excluded).  One job per argument count: bounded, not a proof.
+    out.extend(product_jobs(tier))
+    return out
+
+
+def product_jobs(tier):
+    out = []
+    LST = 'smt_sat_value_listener_sat_value_change__U'
+    for NP in ((5,) if tier == 'quick' else (4, 5, 6, 7)):
+        signs = [(0 if (k % 3) == 1 else 1) for k in range(NP)]            # b1, !b2, b3, b4, !b5, ...
+        MAXV = NP + 1 + 12
+        harn = ['void xt_harness(void)', '{', '  __exc = 0;', '  xt_init_globals();', '  { unsigned int sg; xt_sigma = sg; }',
+                '  struct smt_sat_core s = smt_sat_core_ctor();',
+                '  for (int i = 0; i < %d; i++) smt_sat_core_new_var(&s);' % NP,
+                '  struct vec_lit ls; ls.n = %d;' % NP]
+        for k in range(NP):
+            harn.append('  ls.e[%d].x = (U_t)%d;' % (k, ((k + 1) << 1) + signs[k]))
+        harn += ['  U_t n0 = s.assigns.n;',
+                 '  struct smt_lit ret = smt_sat_core_new_at_most_one__vec_lit(&s, ls);',
+                 '  __CPROVER_assert(__exc == 0, "noexcept");',
+                 '  __CPROVER_assert(s.assigns.n > n0 + 2 && s.assigns.n <= XT_MAXV, "product_encoding_used");',
+                 '  /* sigma is a model: it extends the root assignment and satisfies every stored clause */',
+                 '  _Bool model = 1;',
+                 '  for (U_t v = 0; v < XT_MAXV; v++) if (v < s.assigns.n && s.assigns.e[v] != 2 && (((xt_sigma >> v) & 1u) != 0) != (s.assigns.e[v] == 1)) model = 0;',
+                 '  for (U_t c = 0; c < XT_MAXCL; c++)',
+                 '    if (c < s.constrs.n)',
+                 '    {',
+                 '      struct smt_clause *cl = (struct smt_clause *)s.constrs.e[c];',
+                 '      _Bool sat = 0;',
+                 '      for (U_t k = 0; k < XT_MAXLITS; k++) if (k < cl->lits.n && sg_lit(xt_sigma, cl->lits.e[k])) sat = 1;',
+                 '      if (!sat) model = 0;',
+                 '    }',
+                 '  U_t cnt = 0;',
+                 '  for (U_t k = 0; k < %d; k++) if (sg_lit(xt_sigma, ls.e[k])) cnt++;' % NP,
+                 '  __CPROVER_assert(!(model && sg_lit(xt_sigma, ret)) || cnt <= 1, "forces_constraint");',
+                 '  for (U_t v = 0; v < n0; v++) __CPROVER_assert(s.assigns.e[v] == (v == 0 ? 0 : 2), "root_assignment_unchanged");']
+        harn.append('  __CPROVER_assert(!(model && sg_lit(xt_sigma, ret) && cnt == 0), "WITNESS_no_argument_true_is_still_possible");')
+        for k in range(NP):
+            harn.append('  __CPROVER_assert(!(model && sg_lit(xt_sigma, ret) && cnt == 1 && sg_lit(xt_sigma, ls.e[%d])), "WITNESS_only_argument_%d_true_is_still_possible");' % (k, k))
+        harn += ['  __CPROVER_assert(xt_canary, "xt canary");', '}', '']
+        d = dict(defines(NP + 1, maxv=MAXV, maxcl=40, maxlits=max(NP, 3), exprs_cap=MAXV + 8, str_cap=2 * NP + 2), XT_NP=NP)
+        caps = {'vec_lit': max(NP, 3), 'vec_us': MAXV, 'vec_U': MAXV, 'umap_str_lit': MAXV + 8, 'vec_constrp': 40, 'vec_vec_constrp': 2 * MAXV, 'queue': 2,
+                'umap_U_set_sat_value_listenerp': 1, 'set_sat_value_listenerp': 1}
+        out.append(Job('sat.new_at_most_one_product_%d' % NP, AMO_T, tus=TUS + ['smt/clause.cpp', 'smt/constr.cpp'], contract=None, enforce=False, defines=d,
+                       unwind=2 * MAXV + 4, model_unwind=2 * MAXV + 12, spec_headers=['sat_spec.h'],
+                       callee_contracts={LST: Contract(requires=['1'], ensures=['1'], assigns='')}, replace=[LST], exceptions=True, caps=caps,
+                       abstract_fields={'smt::sat_core': ['constrs', 'watches', 'assigns', 'prop_q', 'trail', 'trail_lim', 'reason', 'level', 'exprs', 'listening'],
+                                        'smt::constr': ['sat', 'id'], 'smt::clause': ['lits'], 'smt::sat_value_listener': []},
+                       harness='\n'.join(harn), roots=['smt_sat_core_ctor', 'smt_sat_core_new_var'], timeout=3000, mem_gb=32, mem_est=10, solver=SOLVER,
+                       force_types=['std::vector<smt::lit>', 'std::vector<unsigned short>', 'std::vector<std::vector<smt::constr *>>', 'std::vector<smt::constr *>', 'std::vector<unsigned long>'],
+                       bounded='BOUNDED STAND-IN, not a proof: one concrete argument list of %d distinct undecided literals (signs %s) on a fresh network; symbolic assignment; '
+                               'the whole real code inline' % (NP, ''.join('+' if x else '-' for x in signs))))
     return out
